@@ -30,6 +30,26 @@ PUNCT = [";", ",", "=", "+", "-", "*", "(", ")", "[", "]", "{", "}", ":", "<", "
 STRS = ['"s"', '"A B"', '"FOO(1)"', '"// no comment"', '"/* x */"', '"#define Z 1"', '"a,b"', '"("', '""', '"p q"', '"a\\\\b"', '"c:\\d"']
 
 
+def _outside_string_and_comment(text, pos):
+    """True if text[pos] is neither inside a double-quoted string nor inside a /* */ comment (quotes inside comments do not count)"""
+    i, in_str, in_com = 0, False, False
+    while i < pos:
+        if in_com:
+            if text.startswith("*/", i):
+                in_com = False
+                i += 1
+        elif in_str:
+            if text[i] == '"':
+                in_str = False
+        elif text[i] == '"':
+            in_str = True
+        elif text.startswith("/*", i):
+            in_com = True
+            i += 1
+        i += 1
+    return not in_str and not in_com
+
+
 @st.composite
 def _source(draw):
     defined = {}          # name -> nparams (None = object-like), in definition order visible at this point
@@ -157,7 +177,7 @@ def _source(draw):
         if draw(st.integers(0, 6)) == 0 and " " in text[8:]:
             # multi-line define with a backslash-newline inside the body
             cut = text.rfind(" ")
-            if text[:cut].count('"') % 2 == 0 and text[:cut].count("/*") == text[:cut].count("*/"):          # never inside a string literal or a comment
+            if _outside_string_and_comment(text, cut):          # never inside a string literal or a comment
                 text = text[:cut] + " \\\n" + text[cut + 1:]
                 feats.add("multiline_define")
         defined[name] = np_
